@@ -50,6 +50,24 @@ CHECKS = {
         tech="property-based testing: mutation-based discrimination oracle + equivalence laws",
         ref="DESIGN.md section 3 / C20",
     ),
+    "C03": dict(
+        text="Generated-input search against an independent simulator: executable programs over a per-case random native gate set (asymmetric multi-qubit unitaries, parametrised gates, classical parameter between qubit parameters, idle / no-unitary gates) with aliases, lets, overrides, macros, loops and parallel blocks are run through run_jaqal_circuit and every visited subcircuit's state vector and probabilities are compared (1e-9) with an einsum tensor simulation of the reference-expanded unrolled program; reversing parallel branch order must change nothing.",
+        note=TRUST + "vlib/refsim.py (cross-checked against a definitional dense construction by the self-test), vlib/refexec.py; gate matrices are inputs; n <= 7 qubits.",
+        tech="property-based testing: differential against an independent reference simulator + metamorphic parallel-order relation",
+        ref="DESIGN.md section 3 / C03",
+    ),
+    "C08": dict(
+        text="Generated-input search against a reference visit model: for accepted bracket placements (loops 0-3, macros, blocks) and for executable programs (let-valued / overridden loop counts), run_jaqal_circuit must finish within a deterministic step budget and produce exactly the reference's unrolled visit sequence (count, order, index, attribution, possible outcome, per-subcircuit lists, frequencies); parse_jaqal_output_list on drawn outputs must attribute identically.",
+        note=TRUST + "vlib/refexec.py; termination is decided by a sys.monitoring LINE-event budget (2000 x unrolled size + 10^6), not by wall clock; runs whose unrolled bracket structure differs from the flat one (prepare/measure in a zero-count loop pairing across the loop) are outside the stated property and counted.",
+        tech="property-based testing: model-based oracle (unrolled visit sequence) + deterministic step-budget termination check",
+        ref="DESIGN.md section 3 / C08",
+    ),
+    "C12": dict(
+        text="Generated-input search over unfiltered prepare/measure/subcircuit/gate placements (nested blocks, single-branch parallel blocks, loops 0-3, macros): the reference applies the property's three flat-order rules; accepted programs must run and yield the reference subcircuit count and states, rejected ones must raise JaqalError naming the rule; hangs and other exceptions are violations.",
+        note=TRUST + "vlib/refexec.py; 2-qubit register with X / idle gates; where a prepare sits in a zero-count loop the state (not the count) is left unjudged because the flat and unrolled readings of 'last prepare' differ.",
+        tech="property-based testing: reference acceptance predicate (both directions: accept<=>run, reject<=>JaqalError)",
+        ref="DESIGN.md section 3 / C12",
+    ),
 }
 
 ORDER = [f"C{i:02d}" for i in range(1, 21)]
